@@ -211,6 +211,7 @@ class J1939_21:
                             # of the message we are about to transmit
 
                             buf['next_packet_to_send'] += 1
+                            buf['last_dt_time'] = time.time()
 
                             should_break = False
                             if package == buf['next_wait_on_cts']:
@@ -339,7 +340,12 @@ class J1939_21:
             self._snd_buffer[buffer_hash]['next_wait_on_cts'] = self._snd_buffer[buffer_hash]['next_packet_to_send'] + num_packages - 1
 
             self._snd_buffer[buffer_hash]['state'] = self.SendBufferState.SENDING_IN_CTS
-            self._snd_buffer[buffer_hash]['deadline'] = time.time()
+            deadline = time.time()
+            if self._minimum_tp_rts_cts_dt_interval != None:
+                # keep the configured minimum interval also between the last packet of the
+                # previous CTS window and the first packet of this one
+                deadline = max(deadline, self._snd_buffer[buffer_hash].get('last_dt_time', 0) + self._minimum_tp_rts_cts_dt_interval)
+            self._snd_buffer[buffer_hash]['deadline'] = deadline
             self.__job_thread_wakeup()
 
 
